@@ -228,6 +228,20 @@ def make_rake(cfg):
     r = cfg.get('rake')
     if not r:
         return None
+    if r[0] == 'flat':
+        # a user-supplied callback: the house drops a flat fee from every
+        # pot (the whole pot when it is smaller) - parts add up, both are
+        # non-negative, which is all the documented contract asks for
+        _, drop, nfnd = r
+        dropv = chip(cfg, drop)
+
+        def flat_rake_fn(amount, state=None):
+            if nfnd and state is not None and not any(state.board_cards):
+                return 0 * amount, amount
+            raked = min(amount, dropv)
+            return raked, amount - raked
+
+        return flat_rake_fn
     num, den, cap, nfnd = r
     t = cfg.get('chip', 'int')
     if t == 'frac':
@@ -516,7 +530,7 @@ NOT_ENOUGH_CARDS = 'There are not enough cards to be dealt'
 
 
 # user callbacks the harness hands to the engine (transparent for triage)
-_CALLBACKS = ('_chunk_divmod', 'rake_fn')
+_CALLBACKS = ('_chunk_divmod', 'rake_fn', 'flat_rake_fn')
 
 
 def innermost_repo_frame(exc):
@@ -655,6 +669,9 @@ class Interp:
                 self.hooks.quiescent(self)
             k = self.step()
             if k is None:
+                if self._out_of_cards():
+                    # the stated deck-size precondition does not hold
+                    raise Discard('a deal is pending and no card is left')
                 return 'stuck'
             count += 1
             if count >= limit:
@@ -662,6 +679,23 @@ class Interp:
         if self.hooks is not None:
             self.hooks.quiescent(self)
         return 'done'
+
+    def _out_of_cards(self):
+        s = self.state
+        pending = s.card_burning_status or any(s.board_dealing_counts) \
+            or any(len(x) for x in s.hole_dealing_statuses)
+        if not pending:
+            return False
+        for verify in (s.verify_card_burning, s.verify_board_dealing,
+                       s.verify_hole_dealing):
+            try:
+                verify()
+            except ValueError as e:
+                if NOT_ENOUGH_CARDS in str(e):
+                    return True
+            except Exception:  # noqa: BLE001
+                pass
+        return False
 
     # ---- choices ------------------------------------------------------------
     def _exclude(self, name):
